@@ -46,10 +46,19 @@ type c14Op struct {
 	Started  bool   `json:"started,omitempty"`
 }
 
+// c14Fail makes the failing receiver panic when it is handed this call, the first Times times.
+type c14Fail struct {
+	Ident string `json:"ident"`
+	N     uint64 `json:"n"`
+	Kind  string `json:"kind"` // end | start
+	Times int    `json:"times"`
+}
+
 type c14Input struct {
-	Mode    string  `json:"mode"`    // direct | abci
-	Genesis []c14Op `json:"genesis"` // abci: epoch definitions placed in the genesis file
-	Ops     []c14Op `json:"ops"`
+	Fail    *c14Fail `json:"fail"`    // direct mode only
+	Mode    string   `json:"mode"`    // direct | abci
+	Genesis []c14Op  `json:"genesis"` // abci: epoch definitions placed in the genesis file
+	Ops     []c14Op  `json:"ops"`
 }
 
 type c14Info struct {
@@ -109,9 +118,29 @@ func (r recorder) BeforeEpochStart(_ sdk.Context, id string, n uint64) {
 	*r.log = append(*r.log, c14Call{Rec: r.idx, Kind: "start", Ident: id, N: n})
 }
 
-func installRecorders(a *app.NibiruApp, log *[]c14Call) {
+// failer is receiver 1: it records the call like the others and then panics if the call is the chosen one.
+type failer struct {
+	log  *[]c14Call
+	fail **c14Fail
+}
+
+func (f failer) hit(kind, id string, n uint64) {
+	*f.log = append(*f.log, c14Call{Rec: 1, Kind: kind, Ident: id, N: n})
+	if p := *f.fail; p != nil && p.Times > 0 && p.Kind == kind && p.Ident == id && p.N == n {
+		p.Times--
+		panic("c14: failing epoch hook")
+	}
+}
+
+func (f failer) AfterEpochEnd(_ sdk.Context, id string, n uint64)    { f.hit("end", id, n) }
+func (f failer) BeforeEpochStart(_ sdk.Context, id string, n uint64) { f.hit("start", id, n) }
+
+const c14Receivers = 3
+
+// receivers: recorder 0, the failing receiver 1, the application's own hooks, recorder 2
+func installRecorders(a *app.NibiruApp, log *[]c14Call, fail **c14Fail) {
 	a.EpochsKeeper.SetHooks(epochstypes.NewMultiEpochHooks(
-		recorder{0, log}, a.InflationKeeper.Hooks(), a.OracleKeeper.Hooks(), recorder{1, log},
+		recorder{0, log}, failer{log, fail}, a.InflationKeeper.Hooks(), a.OracleKeeper.Hooks(), recorder{2, log},
 	))
 }
 
@@ -134,9 +163,10 @@ func infoOfOp(op c14Op) epochstypes.EpochInfo {
 }
 
 type c14World struct {
-	app *app.NibiruApp
-	ctx sdk.Context
-	log []c14Call
+	app  *app.NibiruApp
+	ctx  sdk.Context
+	log  []c14Call
+	fail *c14Fail
 }
 
 var direct *c14World
@@ -145,24 +175,35 @@ func runDirect(t *testing.T, in c14Input) c14Obs {
 	if direct == nil {
 		a, ctx := testapp.NewNibiruTestAppAndContext()
 		direct = &c14World{app: a, ctx: ctx}
-		installRecorders(a, &direct.log)
+		installRecorders(a, &direct.log, &direct.fail)
 	}
 	w := direct
+	w.fail = nil
+	if in.Fail != nil {
+		f := *in.Fail
+		w.fail = &f
+	}
 	ctx, _ := w.ctx.CacheContext() // every case on its own branch of the store
 	for _, e := range w.app.EpochsKeeper.AllEpochInfos(ctx) {
 		if err := w.app.EpochsKeeper.DeleteEpochInfo(ctx, e.Identifier); err != nil {
 			t.Fatal(err)
 		}
 	}
-	obs := c14Obs{K: 2, Init: infosOf(w.app, ctx), Ops: []c14OpObs{}}
+	obs := c14Obs{K: c14Receivers, Init: infosOf(w.app, ctx), Ops: []c14OpObs{}}
 	for _, op := range in.Ops {
 		w.log = w.log[:0]
 		octx := ctx.WithBlockHeader(tmproto.Header{Height: op.H, Time: time.Unix(0, op.T).UTC()})
 		o := c14OpObs{OK: true, T: big.NewInt(op.T), H: op.H}
 		switch op.Op {
 		case "block":
-			if p := Recover(func() { epochs.BeginBlocker(octx, *w.app.EpochsKeeper) }); p != "" {
+			// as the chain does: the block's writes (and what the hooks did) are committed only if BeginBlocker
+			// returns; a panic that leaves it discards the branch
+			bctx, write := octx.CacheContext()
+			if p := Recover(func() { epochs.BeginBlocker(bctx, *w.app.EpochsKeeper) }); p != "" {
 				o.OK = false
+				w.log = w.log[:0]
+			} else {
+				write()
 			}
 		case "add":
 			o.OK = w.app.EpochsKeeper.AddEpochInfo(octx, infoOfOp(op)) == nil
@@ -182,8 +223,9 @@ func runABCI(t *testing.T, in c14Input) c14Obs {
 	}
 	c := NewChain(app.GenesisState{epochstypes.ModuleName: enc.Codec.MustMarshalJSON(&gen)})
 	var log []c14Call
-	installRecorders(c.App, &log)
-	obs := c14Obs{K: 2, Ops: []c14OpObs{}}
+	var nofail *c14Fail
+	installRecorders(c.App, &log, &nofail)
+	obs := c14Obs{K: c14Receivers, Ops: []c14OpObs{}}
 	first := true
 	for _, op := range in.Ops {
 		log = log[:0]
@@ -369,6 +411,13 @@ func genC14Case(r *Rng) c14Input {
 		}
 		in.Ops = append(in.Ops, c14Op{Op: "block", T: now, H: h})
 	}
+	if in.Mode == "direct" && len(used) > 0 && r.Chance(1, 3) {
+		kind := "end"
+		if r.Chance(1, 3) {
+			kind = "start"
+		}
+		in.Fail = &c14Fail{Ident: used[r.Intn(len(used))], N: uint64(r.Range(1, 4)), Kind: kind, Times: r.Range(1, 2)}
+	}
 	return in
 }
 
@@ -415,6 +464,12 @@ func TestC14(t *testing.T) {
 	}, Ops: []c14Op{
 		{Op: "block", T: t0 - 5}, {Op: "block", T: t0}, {Op: "block", T: t0 + 3600*nsSec}, {Op: "block", T: t0 + day},
 		{Op: "add", Ident: "zz", Dur: 10 * nsSec}, {Op: "block", T: t0 + day + 10*nsSec}, {Op: "block", T: t0 + 2*day},
+	}})
+	// a receiver panics on AfterEpochEnd("day", 2), twice: those blocks must commit nothing
+	run(c14Input{Mode: "direct", Fail: &c14Fail{Ident: "day", N: 2, Kind: "end", Times: 2}, Ops: []c14Op{
+		{Op: "add", T: t0, H: 1, Ident: "day", Dur: day}, {Op: "add", T: t0, H: 1, Ident: "hour", Dur: 3600 * nsSec},
+		{Op: "block", T: t0, H: 2}, {Op: "block", T: t0 + day, H: 3}, {Op: "block", T: t0 + 2*day, H: 4},
+		{Op: "block", T: t0 + 2*day + 1, H: 5}, {Op: "block", T: t0 + 2*day + 2, H: 6}, {Op: "block", T: t0 + 3*day + 2, H: 7},
 	}})
 	rng := NewRng(cfg.Seed)
 	for i := 0; i < cfg.N; i++ {
